@@ -80,3 +80,35 @@ func (P *Prog) unrolledOKFacts(x *exitInfo) []Fact {
 	}
 	return out
 }
+
+// instanceFacts: the branch conditions dominating instruction at, evaluated
+// by engine eng (one iteration of a constant-bound loop: the index is a
+// constant, element loads forward to the literal).
+func instanceFacts(P *Prog, eng *termEngine, at ssa.Instruction) []Fact {
+	var out []Fact
+	b := at.Block()
+	for d := b.Idom(); d != nil; b, d = d, d.Idom() {
+		if len(d.Instrs) == 0 {
+			continue
+		}
+		iff, ok := d.Instrs[len(d.Instrs)-1].(*ssa.If)
+		if !ok || d.Succs[0] == d.Succs[1] {
+			continue
+		}
+		t, f := d.Succs[0], d.Succs[1]
+		// a successor that dominates the branching block is a back edge
+		// (continue): it does not lead to b within this iteration
+		leads := func(s *ssa.BasicBlock) bool { return s == b || (s.Dominates(b) && !s.Dominates(d)) }
+		tOnly := leads(t) && !leads(f)
+		fOnly := leads(f) && !leads(t)
+		if !tOnly && !fOnly {
+			continue
+		}
+		tmp := factSet{}
+		P.addEdgeFacts(tmp, eng.of(iff.Cond), tOnly, iff)
+		for _, x := range tmp {
+			out = append(out, x)
+		}
+	}
+	return out
+}
